@@ -2,6 +2,7 @@
 from ..core import Rule
 from ..prog import *
 from ..facts import AnalysisBroken
+from ..interp import normx, nkey, run_all
 
 UNITS = ["bufferevent_ratelim", "bufferevent_sock", "bufferevent_ssl", "bufferevent_openssl", "bufferevent_mbedtls"]
 LEVEL = "other"
@@ -171,4 +172,55 @@ def run(ctx, config):
         r3.bad("K7:bufferevent_decrement_buckets:twins-differ", "%s:%d" % (b.file, b.line), b.name,
                "read and write decrement differ beyond the read<->write renaming at element %d" % diff)
     rules.append(r3)
+    rules.append(rule_clip_eval(P))
     return rules
+
+
+def rule_clip_eval(P):
+    """re-configuration never forgives debt: bucket levels are only ever clipped DOWN to the new burst (typed evaluation: signed/unsigned conversions matter)"""
+    r = Rule("C22-reconfigure", "K6", "set_cfg / re-initialisation clip a bucket to min(level, new maximum): a negative level (debt) survives reconfiguration", floor=40)
+    MAXV = (1 << 63) - 1
+    sites = []
+    g = P.fn("bufferevent_rate_limit_group_set_cfg")
+    gp = ["var", g.params[0][0], "param"]
+    cp = ["var", g.params[1][0], "param"]
+    def glim(ch):
+        return nkey(["fld", ["fld", gp, "bufferevent_rate_limit_group.rate_limit", "->"], "ev_token_bucket.%s_limit" % ch, "."])
+    def cfgk(base, fld):
+        return nkey(["fld", base, "ev_token_bucket_cfg.%s" % fld, "->"])
+    sites.append(("bufferevent_rate_limit_group_set_cfg", g, gp, cp, glim, {}))
+    h = P.fn("ev_token_bucket_init_")
+    hb = ["var", h.params[0][0], "param"]
+    hc = ["var", h.params[1][0], "param"]
+    def hlim(ch):
+        return nkey(["fld", hb, "ev_token_bucket.%s_limit" % ch, "->"])
+    sites.append(("ev_token_bucket_init_ (reinitialize)", h, hb, hc, hlim, {h.params[3][0]: 1, h.params[2][0]: 9}))
+    nb = 0
+    for title, f, base, cfg, limk, extra in sites:
+        for mx in (300, MAXV):
+            for lvl in (-(1 << 62), -4900, -1, 0, 100, mx, min(MAXV, mx + 100)):
+                for ch in ("read", "write"):
+                    oth = "write" if ch == "read" else "read"
+                    env = {"#typed": 1, base[1]: 1, cfg[1]: 2, limk(ch): lvl, limk(oth): 5,
+                           cfgk(cfg, ch + "_maximum"): mx, cfgk(cfg, oth + "_maximum"): 1000, cfgk(cfg, ch + "_rate"): 10, cfgk(cfg, oth + "_rate"): 10}
+                    env.update(extra)
+                    def hook(el, e_):
+                        n = callee_name(el.e)
+                        if n in ("memcpy", "__builtin___memcpy_chk", "__builtin_memcpy", "event_add", "bufferevent_rate_limit_group_set_min_share", "evthread_is_debug_lock_held_"):
+                            return 0
+                        return None
+                    outs = [o for o in run_all(f, (f.entry, 0), env, lambda el: False, P, hook, max_steps=300) if not (o.kind == "exit" and o.why == "noreturn")]
+                    vals = set()
+                    for o in outs:
+                        if o.kind != "ret":
+                            r.brk("%s not evaluable: %s %s" % (f.name, o.kind, o.why))
+                            return r
+                        vals.add((o.env.get(limk(ch)), o.env.get(limk(oth))))
+                    want = (min(lvl, mx), 5)
+                    r.inst((f.name, mx, lvl, ch), {"fn": title, "channel": ch, "new_maximum": mx, "level_before": lvl, "level_after": sorted(v[0] for v in vals if v[0] is not None), "exact": want[0]})
+                    if vals != {want} and nb < 6:
+                        nb += 1
+                        r.bad("K6:%s:%s:reconfigure-clip" % (f.name, ch), "%s:%d" % (f.file, f.line), f.name,
+                              "%s: %s level %d with new maximum %d becomes %s; it must become %d (only ever clipped down: a negative level is debt that later ticks still have to repay)" % (
+                                  title, ch, lvl, mx, sorted(vals), want[0]))
+    return r
